@@ -37,6 +37,8 @@ def correspondence(ctx):
     tcorr.run_jobs(jobs)
     for j in jobs:
         tcorr.compare(ctx, j, 'C02', observables=('out', 'ld'))
+    # linear family (generic, non-initial parameters), normalisation layers, permutations, squeeze, wrappers, UMNN: round trip directly
+    oracles.direct_on_extras(ctx, 'C02', oracles.roundtrip_search)
 
 
 def search(ctx):
